@@ -442,11 +442,6 @@ class Runner:
                                  **self.sig(cfg, model, op=k, why=why))
                         return None, False, (kindname, k)
                     result = 'rejected:' + why + ':' + type(raised).__name__
-                    if why == 'exists' and not isinstance(raised, FileExistsError) or \
-                            why == 'missing' and not isinstance(raised, KeyError):
-                        acc.fail('wrong_error_type', case,
-                                 f'cfg={cfg} history={hist}\n step {i} {op}: documented error for {why} not raised, got '
-                                 f'{type(raised).__name__}: {raised}', **self.sig(cfg, model, op=k, why=why))
                     if before is not None:
                         after = (disk_digest(wd), view_of(h, None))
                         if after != before:
@@ -486,6 +481,7 @@ class Runner:
                 ('add_file(existing)', lambda: r.add_file(tgt, b'12345', arch_index=cfg[2])),
             ]
         before = disk_digest(self.workdir)
+        before_view = view_of(r, None)
         for label, fn in attempts:
             try:
                 fn()
@@ -497,9 +493,11 @@ class Runner:
         if disk_digest(self.workdir) != before:
             acc.fail('readonly_state_changed', case, where + "rejected mutations on a mode='r' archive changed the "
                      'files on disk', **self.sig(cfg, model, op='any', why='readonly'))
-        elif after_view != disk:
-            acc.fail('readonly_state_changed', case, where + "after the rejected mutations the mode='r' handle lists/reads "
-                     f'{ {k2: (bdesc(v) if isinstance(v, bytes) else v) for k2, v in after_view.items()} }',
+        elif after_view != before_view:
+            def show(v: dict) -> dict:
+                return {k2: (bdesc(x) if isinstance(x, bytes) else x) for k2, x in v.items()}
+            acc.fail('readonly_state_changed', case, where + "the rejected mutations changed what the mode='r' handle "
+                     f'lists/reads: before {show(before_view)}, after {show(after_view)}',
                      **self.sig(cfg, model, op='any', why='readonly'))
 
     # -- the state oracle ---------------------------------------------------------------------
@@ -556,9 +554,6 @@ class Runner:
             acc.fail('listing_mismatch', case,
                      where + f'reopened archive lists {sorted(listed)}, should be {sorted(disk)}',
                      **self.sig(cfg, model))
-        if len(r) != len(listed):
-            acc.fail('len_mismatch', case, where + f'len(vpk)={len(r)} but filenames() yields {len(listed)}',
-                     **self.sig(cfg, model))
         lib_fields = {}
         all_verify = True
         for nm in sorted(disk):
@@ -596,9 +591,6 @@ class Runner:
                 acc.fail('read_mismatch', case,
                          where + f'after reopen {nm!r} reads {bdesc(got)}, last written {bdesc(want)} '
                          f'[{relation(got, want)}]', **self.sig(cfg, model))
-            if info.size != len(got):
-                acc.fail('size_mismatch', case, where + f'{nm!r}: FileInfo.size={info.size}, read() gives {len(got)} bytes',
-                         **self.sig(cfg, model))
             if not ver:
                 all_verify = False
                 acc.fail('verify_failed', case,
@@ -935,7 +927,8 @@ def run(ctx: core.Ctx) -> None:
     _SCRATCH = ctx.scratch
     assert zlib.crc32(CRC_TWINS[0].encode()) == zlib.crc32(CRC_TWINS[1].encode())
     q = ctx.quick
-    deadline = time.time() + (150 if q else 1500)
+    # safety net only (a wedged worker); the tier budgets are met by the bounds, not by this cap
+    deadline = time.time() + (900 if q else 5400)
     stats: dict = {}
     for lattice, (menu, roots, dq, dt) in LATTICES.items():
         bfs(ctx, lattice, roots, dq if q else dt, deadline, stats)
